@@ -104,6 +104,12 @@ def make_pool():
         P["pima"] = PersistenceImager(birth_range=(0.0, 6.0), pers_range=(0.0, 6.0), pixel_size=2.0, kernel_params={"sigma": np.array([[0.5, 0.0], [0.0, 2.0]])})
         P["pimu"] = PersistenceImager(birth_range=(0.0, 6.0), pers_range=(0.0, 6.0), pixel_size=2.0, kernel="uniform", kernel_params={"width": 2.0, "height": 2.0})
     P["img"] = np.arange(9.0).reshape(3, 3)
+    # parameter dictionaries owned by the caller
+    P["kp"] = {"sigma": 0.5}
+    P["wp"] = {"low": 0.0, "high": 1.0, "start": 0.0, "end": 5.0}
+    P["D3"] = np.array([[0, 1], [1, 3], [2, 5], [0, 4]], dtype=float)     # persistences 1, 2, 3, 4: fractional ramp weights
+    P["D3i"] = P["D3"].astype(int)
+    P["D3l"] = P["D3"].tolist()
     return P
 
 
@@ -346,6 +352,40 @@ def _(P, v):
     a, b = ax2()
     r = P["pim"].plot_diagram(P["BP"], skew=False, ax=a)
     out = dig(r); plt.close("all"); return out
+
+
+@ep("imager linear_ramp weight transform", F3)
+def _(P, v):
+    pim = PersistenceImager(birth_range=(0.0, 6.0), pers_range=(0.0, 6.0), pixel_size=2.0, weight=images_weights.linear_ramp,
+                            weight_params={"low": 0.0, "high": 1.0, "start": 0.0, "end": 5.0}, kernel_params={"sigma": 0.5})
+    return pim.transform(V(P, "D3", v, F3))
+@ep("imager built from the caller's parameter dicts")
+def _(P, v):
+    pim = PersistenceImager(birth_range=(0.0, 6.0), pers_range=(0.0, 6.0), pixel_size=2.0, weight=images_weights.linear_ramp,
+                            weight_params=P["wp"], kernel_params=P["kp"])
+    return [pim.transform(P["D3"]), dig(pim)]
+@ep("default imager transform (fresh instance)")
+def _(P, v):
+    pim = PersistenceImager()
+    return [pim.transform(P["BP"] / 4.0), dig(pim), repr(pim)]
+@ep("default imager, its own parameter dicts edited in place, transform")
+def _(P, v):
+    pim = PersistenceImager()
+    pim.kernel_params["sigma"] = 0.05
+    pim.weight_params["n"] = 3.0
+    return pim.transform(P["BP"] / 4.0)
+@ep("default PersistenceLandscaper / PersLandscapeApprox (fresh instances)")
+def _(P, v):
+    pl = PersistenceLandscaper()
+    out = pl.fit_transform([P["D1"], P["D2"]])
+    pa = PersLandscapeApprox(dgms=[P["D2"]], hom_deg=0)
+    return [out, dig(pl), pa]
+@ep("PersistenceLandscaper attributes edited, transform (own instance)")
+def _(P, v):
+    pl = PersistenceLandscaper(hom_deg=0, num_steps=5)
+    pl.fit([P["D1"]])
+    pl.num_steps = 9
+    return pl.transform([P["D1"]])
 
 
 def handler(job):
